@@ -20,11 +20,13 @@ func main() {
 	evdir := flag.String("evidence-dir", "", "write evidence files to this directory instead of /verif/evidence (seed runs)")
 	all := flag.Bool("all", false, "check every claimed property")
 	writeBase := flag.Bool("write-baseline", false, "with -all: write baseline_obligations.json when every claimed property is green")
+	vacuity := flag.Bool("vacuity", false, "diagnostic: with -property, list discharged obligations all of whose path instances have unsatisfiable premises")
 	sweepAll := flag.Bool("sweep-safety", false, "run the zero-annotation safety sweep over every function (diagnostic)")
 	flag.Parse()
 	if t := os.Getenv("VERIF_TIER"); t != "" && !isFlagSet("tier") {
 		*tier = t
 	}
+	vacuityProbe = *vacuity
 	cfg := &RunCfg{Repo: *repo, Mirror: *mirror, Tier: *tier, Out: *out, DumpSynth: *dump, Verbose: *verbose, EvidenceDir: *evdir}
 	switch {
 	case *replay != "":
